@@ -164,7 +164,7 @@ Section WholeFile.
   Hypothesis Hbs : 0 < bs.
 
 
-  Lemma order_name_be be : bytes_eqb (order_name be) [49; 48] = be.
+  Lemma order_name_be be : bytes_eqb (order_name be) big_endian_tag = be.
   Proof. destruct be; reflexivity. Qed.
 
   Lemma order_name_good be : good_token (order_name be).
@@ -240,14 +240,14 @@ Section WholeFile.
     c <> Pcm ->
     params_of (std_header c 1 order chans count rate) d = Some
       {| p_coding := c; p_size := 1; p_count := count; p_chans := chans; p_bits := 8; p_signed := false;
-         p_be := match order with Some o => bytes_eqb o [49; 48] | None => false end;
+         p_be := match order with Some o => bytes_eqb o big_endian_tag | None => false end;
          p_convert := 1 <? dsize (match d with Some x => x | None => int16 end);
          p_short := false; p_dtype := match d with Some x => x | None => int16 end |}.
   Proof.
     intros Hc. unfold params_of, std_header. cbn [h_size h_coding h_count h_chans h_order h_short].
     destruct in_types_values as (V1 & _). rewrite V1.
     assert (IL : is_law c = true) by (destruct c; [contradiction | reflexivity | reflexivity]).
-    rewrite IL, andb_true_r. destruct d; reflexivity.
+    unfold convert_rule. rewrite IL, andb_true_r. destruct d; reflexivity.
   Qed.
 
   Lemma law_file_l c order d codes tail n :
@@ -375,11 +375,9 @@ Proof.
   destruct (field_loop _ _); [|intros H; inversion H; auto | discriminate].
   unfold finish_header.
   destruct (hdr_reject _ _ _ _ _ _); [intros H; inversion H; auto|].
-  destruct (if hdr_infer_pcm _ _ _ _ _ _ then _ else _); [|intros H; inversion H; auto].
+  destruct (negb _); [intros H; inversion H; auto|].
   destruct (v_count v); [|intros H; inversion H; auto].
-  destruct (v_rate v); [|intros H; inversion H; auto].
-  destruct (v_chans v); [|intros H; inversion H; auto].
-  destruct (truthy_z _); [discriminate | intros H; inversion H; auto].
+  destruct (v_chans v); [discriminate | intros H; inversion H; auto].
 Qed.
 
 (* a declared sample count of zero is rejected *)
@@ -421,3 +419,13 @@ Example size_line_not_integer_ioerror :
   sphere_read (asc "NIST_1A" ++ [10] ++ asc "   abc" ++ [10] ++ zrepeat 32 1100) None = Error EIO /\
   sphere_read (asc "NIST_1A" ++ zrepeat 32 1100) None = Error EIO.
 Proof. vm_compute. split; reflexivity. Qed.
+
+(* the witness of defect D10 (3 channels, 2731 frames = 16386 bytes: the first
+   16 KiB read ends inside a frame), evaluated on the model at the source's read size *)
+Example three_channels_across_a_read_boundary :
+  let samples := map (fun i => (Z.of_nat i * 7919) mod 65536 - 32768) (seq 0 (Z.to_nat (3 * 2731))) in
+  let txt := header_text 1024 (std_fields Pcm 2 (Some (asc "01")) 3 2731 16000) in
+  sphere_read (std_file 1024 [] Pcm 2 (Some (asc "01")) 3 2731 16000 (zrepeat 32 (1024 - len txt))
+                        (encode_items 2 false samples)) None
+  = Decoded false int16 [2731; 3] (map Some samples).
+Proof. vm_compute. reflexivity. Qed.
